@@ -186,3 +186,52 @@ func gsxC12DupSubExpr() {
 	gsxrt.Assert(kind <= 4, "claim: operands reported as identical contain a call or a channel receive (two evaluations need not give the same value)")
 }
 
+
+// gsxC12NilValReturn: when nilValReturn reports "returned expr is always nil"
+// for `if e == N { return e }`, then e really is nil at the return: e is a
+// pure expression (a second evaluation gives the same value) and N is the
+// predeclared nil, not a user declaration that shares its spelling.
+func gsxC12NilValReturn() {
+	c, ctx := gsxNewChecker("nilValReturn")
+	info := ctx.TypesInfo
+	info.Types = map[ast.Expr]types.TypeAndValue{}
+	info.Uses = map[*ast.Ident]types.Object{}
+	info.Defs = map[*ast.Ident]types.Object{}
+	ptr := types.NewPointer(types.Typ[types.Int])
+	typed := func(e ast.Expr, t types.Type) ast.Expr { info.Types[e] = types.TypeAndValue{Type: t}; return e }
+	kind := gsxrt.Choose("operand", 4)
+	mk := func() ast.Expr {
+		switch kind {
+		case 0:
+			return typed(&ast.Ident{Name: "x"}, ptr)
+		case 1:
+			return typed(&ast.SelectorExpr{X: typed(&ast.Ident{Name: "p"}, ptr), Sel: &ast.Ident{Name: "next"}}, ptr)
+		case 2:
+			return typed(&ast.CallExpr{Fun: typed(&ast.Ident{Name: "f"}, types.NewSignatureType(nil, nil, nil, nil, types.NewTuple(types.NewVar(0, nil, "", ptr)), false))}, ptr)
+		default:
+			return typed(&ast.UnaryExpr{Op: token.ARROW, X: typed(&ast.Ident{Name: "ch"}, types.NewChan(types.SendRecv, ptr))}, ptr)
+		}
+	}
+	nilIdent := &ast.Ident{Name: "nil"}
+	userNil := gsxrt.Bool("nil is a user variable")
+	if userNil {
+		info.Uses[nilIdent] = types.NewVar(0, nil, "nil", ptr)
+	} else {
+		info.Uses[nilIdent] = types.Universe.Lookup("nil")
+	}
+	typed(nilIdent, ptr)
+	op := token.Token(gsxrt.IntRange("op", int(token.EQL), int(token.NEQ)))
+	gsxrt.Assume(gsxrt.Or(op == token.EQL, op == token.NEQ))
+	cond := typed(&ast.BinaryExpr{X: mk(), Op: op, Y: nilIdent}, types.Typ[types.Bool])
+	stmt := &ast.IfStmt{If: 10, Cond: cond, Body: &ast.BlockStmt{List: []ast.Stmt{&ast.ReturnStmt{Return: 30, Results: []ast.Expr{mk()}}}}}
+	v := gsxrt.Field(gsxrt.Field(c, "fileWalker"), "visitor").(interface{ VisitStmt(ast.Stmt) })
+	v.VisitStmt(stmt)
+	gsxrt.Reached("visited")
+	if len(gsxWarnings(c)) == 0 {
+		return
+	}
+	gsxrt.Reached("reported")
+	gsxrt.Assert(op == token.EQL, "claim: 'always nil' is reported for a condition that is not an equality with nil")
+	gsxrt.Assert(kind <= 1, "claim: 'always nil' is reported for an operand with a call or a channel receive (the returned evaluation is another one)")
+	gsxrt.Assert(!userNil, "claim: 'always nil' is reported although nil denotes a user declaration here, not the predeclared nil")
+}
